@@ -425,3 +425,136 @@ fn gcd(a: usize, b: usize) -> usize {
         gcd(b, a % b)
     }
 }
+
+// ---------------------------------------------------------------------------------------------
+// By-path crash route: the destination path already holds a longer shapefile; the new writer is
+// created with ShapeWriter::from_path, writes, optionally finalizes, and then "crashes"
+// (std::mem::forget: buffers never flushed, files never finalized). What is on disk must read
+// as an error or as a prefix of the NEW shapes - never as shapes of the old file.
+
+#[derive(Clone, Debug, Serialize, Deserialize)]
+pub struct CrashPathScn {
+    pub ty: i32,
+    /// records of the file that is already at the path (0 = no previous file)
+    pub n_old: usize,
+    pub n_new: usize,
+    /// call finalize() after this many new shapes (None = never)
+    pub fin_after: Option<usize>,
+    /// points per shape (multi-vertex types), to vary how much gets flushed by the 8 KiB buffers
+    pub npts: usize,
+}
+
+pub fn execute_path(scn: &CrashPathScn, ctx: &mut Ctx) {
+    use crate::on_shape;
+    if !TYPES.contains(&scn.ty) || scn.n_new == 0 || scn.n_new > 3000 || scn.n_old > 3000 {
+        ctx.fail("HARNESS", "invalid-scenario", "crash-path", "bad parameters".to_string());
+        return;
+    }
+    let mk = |tag: usize| -> ShapeSpec {
+        let mut s = if is_point(scn.ty) { grid_spec(scn.ty, 1, 1, tag) } else { grid_spec(scn.ty, 1, scn.npts.clamp(2, 600), tag) };
+        tag_spec(&mut s, tag);
+        s
+    };
+    let old: Vec<ShapeSpec> = (0..scn.n_old).map(|i| mk(5000 + i)).collect();
+    let new: Vec<ShapeSpec> = (0..scn.n_new).map(mk).collect();
+    let (Ok(old_shapes), Ok(new_shapes)) = (build_all(&old), build_all(&new)) else {
+        ctx.fail("HARNESS", "build", "ctor", "cannot build shapes".to_string());
+        return;
+    };
+    let expected: Vec<Geom> = new_shapes.iter().map(|s| capture(s).normalised_for_read()).collect();
+    let dir = crate::scratch_dir();
+    let base = dir.join(format!("crash-{}-{}-{}-{:?}-{}", scn.ty, scn.n_old, scn.n_new, scn.fin_after, scn.npts));
+    let shp_path = base.with_extension("shp");
+    let shx_path = base.with_extension("shx");
+    let _ = std::fs::remove_file(&shp_path);
+    let _ = std::fs::remove_file(&shx_path);
+    let r = guarded(|| -> Result<(), shapefile::Error> {
+        if !old_shapes.is_empty() {
+            let mut w = shapefile::ShapeWriter::from_path(&shp_path)?;
+            for s in &old_shapes {
+                on_shape!(s, c => w.write_shape(c)?, ());
+            }
+        }
+        let mut w = shapefile::ShapeWriter::from_path(&shp_path)?;
+        for (i, s) in new_shapes.iter().enumerate() {
+            on_shape!(s, c => w.write_shape(c)?, ());
+            if scn.fin_after == Some(i + 1) {
+                w.finalize()?;
+            }
+        }
+        // the crash: nothing more reaches the files
+        std::mem::forget(w);
+        Ok(())
+    });
+    match r {
+        Ok(Ok(())) => {}
+        Ok(Err(e)) => {
+            ctx.fail("C11", "path-write", "from_path", format!("writing by path failed: {:?}", classify(&e)));
+            return;
+        }
+        Err(p) => {
+            ctx.fail("C11", "panic", p.site(), p.text());
+            return;
+        }
+    }
+    ctx.stats.fault("crash:by-path-buffers-lost", 1);
+    let shp = std::fs::read(&shp_path).unwrap_or_default();
+    let shx = std::fs::read(&shx_path).unwrap_or_default();
+    let _ = std::fs::remove_file(&shp_path);
+    let _ = std::fs::remove_file(&shx_path);
+    let durable = scn.fin_after.filter(|k| *k <= scn.n_new).unwrap_or(0);
+    let what = format!("by path over a previous file of {} records: {} new shapes, finalize after {:?}, then crash ({} + {} bytes on disk)", scn.n_old, scn.n_new, scn.fin_after, shp.len(), shx.len());
+    match read_no_index(&shp, 0) {
+        Err(pi) => ctx.fail("C11", "panic", pi.site(), format!("{}: {}", what, pi.text())),
+        Ok(None) => {
+            if durable > 0 {
+                ctx.fail("C11", "durability", "path", format!("{}: the .shp cannot be opened although a finalize completed", what));
+            }
+        }
+        Ok(Some((items, _))) => {
+            if let Some(v) = prefix_violation(&items, &expected) {
+                ctx.fail("C11", "prefix", "path:noshx", format!("{}: {}", what, v));
+            }
+            if ok_prefix_len(&items) < durable {
+                ctx.fail("C11", "durability", "path", format!("{}: only {} of the {} shapes written before the completed finalize are readable", what, ok_prefix_len(&items), durable));
+            }
+        }
+    }
+    match read_with_index(&shp, &shx, 0) {
+        Err(pi) => ctx.fail("C11", "panic", pi.site(), format!("{}: {}", what, pi.text())),
+        Ok(None) => ctx.stats.reach("path-indexed-open-failed"),
+        Ok(Some((items, _, nth))) => {
+            if let Some(v) = prefix_violation(&items, &expected) {
+                ctx.fail("C11", "prefix", "path:shx", format!("{}: {}", what, v));
+            }
+            let never = |_: usize, _: usize| false;
+            for (i, x) in nth.iter().enumerate() {
+                if let Some(Ok(g)) = x {
+                    if expected.get(i).map(|e| diff_read(e, g, i, &never).is_some()).unwrap_or(true) {
+                        ctx.fail("C11", "random-access", "path:shx", format!("{}: read_nth_shape({}) returned a shape that was not written there", what, i));
+                        break;
+                    }
+                }
+            }
+        }
+    }
+    ctx.stats.distinct.insert(crate::prng::fnv_str(&format!("path|{}|{}|{}|{:?}|{}", scn.ty, scn.n_old, scn.n_new, scn.fin_after, scn.npts)));
+}
+
+/// Deterministic by-path crash scenarios (real file system, fault-free except for the crash).
+pub fn path_unit(unit: u64, ctx: &mut Ctx, ctl: &mut UnitCtl) {
+    let ty = [1, 3, 15, 28][(unit % 4) as usize];
+    let mut scns = Vec::new();
+    for (n_old, n_new, fin_after, npts) in [(40usize, 15usize, None, 2usize), (40, 10, Some(5), 2), (0, 10, Some(4), 2), (60, 3, Some(3), 2), (30, 400, Some(200), 40), (1000, 600, None, 30), (8, 700, Some(1), 50)] {
+        scns.push(CrashPathScn { ty, n_old, n_new, fin_after, npts });
+    }
+    for scn in scns {
+        if !ctl.before_case(|| Scenario::CrashPath(scn.clone())) {
+            continue;
+        }
+        ctx.stats.evaluations += 1;
+        ctx.stats.reach("by-path-crash");
+        execute_path(&scn, ctx);
+        ctl.after_case(ctx, || Scenario::CrashPath(scn.clone()));
+    }
+}
